@@ -438,6 +438,41 @@ impl<T: Piece> Target for Piecewise<T> {
                 }
                 out.expected_values = n.saturating_sub(k);
             }
+            M::Skip(k) => {
+                let v: Vec<f64> = self.evaluate_v(feed.clone()).skip(k).collect();
+                out.values = v.into_iter().enumerate().map(|(j, y)| (k + j, y)).collect();
+                out.expected_values = n.saturating_sub(k);
+            }
+            M::StepBy(k) => {
+                let k = k.max(1);
+                let v: Vec<f64> = self.evaluate_v(feed.clone()).step_by(k).collect();
+                out.values = v.into_iter().enumerate().map(|(j, y)| (j * k, y)).collect();
+                out.expected_values = n.div_ceil(k);
+            }
+            M::Peekable => {
+                let mut it = self.evaluate_v(feed.clone()).peekable();
+                let mut j = 0;
+                loop {
+                    let peeked = it.peek().copied();
+                    match it.next() {
+                        Some(y) => {
+                            // what was peeked is what comes next
+                            out.values.push((j, if peeked.map(f64::to_bits) == Some(y.to_bits()) || peeked.map_or(false, |p| p.is_nan() && y.is_nan()) { y } else { f64::NAN }));
+                            j += 1;
+                        }
+                        None => break,
+                    }
+                }
+            }
+            M::ByRefTake(k) => {
+                let mut it = self.evaluate_v(feed.clone());
+                let head: Vec<f64> = it.by_ref().take(k).collect();
+                let taken = head.len();
+                out.values = head.into_iter().enumerate().collect();
+                for (j, y) in it.enumerate() {
+                    out.values.push((taken + j, y));
+                }
+            }
             M::SizeHint => {
                 let it = self.evaluate_v(feed.clone());
                 out.size_hint = Some(it.size_hint());
